@@ -22,7 +22,7 @@ pub fn mon() -> Mon {
             "an error variant added to the library after this harness was written (EK::Other) names a condition the oracle cannot know: such a rejection is counted as unjudged, not as untruthful",
             "the choice among several true error conditions is free (order of checks is not specified)",
         ],
-        children: no_children,
+        children: rel_child_quarter,
     }
 }
 
